@@ -22,7 +22,7 @@ PROP = "C18"
 
 BASE = {
     "n_ord": (3, 8), "n_trip": [0, 1, 1, 2], "n_miss": [0, 0, 1], "n_nodes": (8, 36),
-    "group_prob": [0.1, 0.25, 0.4], "n_steps": (8, 28), "kind_off_prob": 0.1,
+    "group_prob": [0.1, 0.25, 0.4], "dup_prob": [0.2, 0.4, 0.6], "n_steps": (8, 28), "kind_off_prob": 0.1,
     "early_prob": [0.5, 0.8],
     "weights": {
         "at": 4, "at_num": 0.5, "mk_partial": 3, "mk_derivative": 0.5, "mk_differential": 5,
@@ -117,6 +117,7 @@ def child_main(cfg):
         run = engine.Run(scn_v, oracles=(), reach=False).execute()
         out["digests"].append(engine.log_digest(run.log))
         out["log"] = run.log
+        out["details"] = [_detail(o) for _, o in run.records]
         print(json.dumps(out))
         return 0
     for idx in range(cfg["start"], cfg["stop"]):
@@ -129,6 +130,12 @@ def child_main(cfg):
             out.setdefault("logs", {})[str(idx)] = run.log
     print(json.dumps(out))
     return 0
+
+
+def _detail(o):
+    if o[0] == "obj" and o[1] == "E" and len(o[2]) >= 2:
+        return str(o[2][1])[:400]
+    return repr(o)[:400]
 
 
 def spawn(cfg, hashseed):
@@ -155,6 +162,7 @@ def run_pair(scn, cfg_a, cfg_b, disable_f3=False):
         cfg = {"scenario": scn, "variant": c["variant"], "vseed": c.get("vseed", 0), "disable_f3": disable_f3}
         procs.append(spawn(cfg, c["hashseed"]))
     ra, rb = (collect(p, 120) for p in procs)
+    run_pair.last_details = (ra.get("details", []), rb.get("details", []))
     return ra["digests"][0], rb["digests"][0], ra["log"], rb["log"]
 
 
@@ -307,6 +315,12 @@ def investigate(seed, idx, cfg_a, cfg_b, known):
           f"{b['variant']} disagree; minimised to {len(small['steps'])} steps / {len(small['nodes'])} nodes")
     if first is not None:
         print(f"  A: {la[first]}\n  B: {lb[first]}")
+        da_, db_ = getattr(run_pair, "last_details", ([], []))
+        if first < len(da_) and first < len(db_):
+            print(f"  A outcome: {da_[first]}\n  B outcome: {db_[first]}")
+            doc["first_differing_outcome"] = {"a": da_[first], "b": db_[first]}
+            with open(path, "w") as f:
+                json.dump(doc, f, indent=1)
     return path, "violation"
 
 
